@@ -25,7 +25,7 @@ ASSUMPTIONS = [
     "a run in which no mutation is benign, or every mutation fails at the first parser step, would be inconclusive (outcome histogram is checked)",
 ]
 KDF_BUDGET = 400
-FULL_QUICK = {"SHA256-nonce-envelope", "SHA256-nonce-trailing", "SHA1-ECDH_P256-envelope", "SHA512-ECDH_P256-trailing", "SHA384-nonce-envelope", "SHA512-ECDH_P384-envelope", "SHA1-nonce-trailing", "SHA256-ECDH_P384-trailing"}
+FULL_QUICK = {"NESTED-nonce-envelope", "NESTED-nonce-trailing", "SHA256-nonce-envelope", "SHA256-nonce-trailing", "SHA1-ECDH_P256-envelope", "SHA512-ECDH_P256-trailing", "SHA384-nonce-envelope", "SHA512-ECDH_P384-envelope", "SHA1-nonce-trailing", "SHA256-ECDH_P384-trailing"}
 
 
 def plan(tier, seed):
@@ -51,6 +51,8 @@ def plan(tier, seed):
         sizes += [2**16 - 16, 2**18 + 3, 2**24 - 16, 2**24 + 1, 2**25 + 7, 2**26 + 3]
     for i, sz in enumerate(sizes):
         specs.append({"name": f"large-{sz}", "kind": "large", "size": sz, "layouts": ["envelope", "trailing"]})
+    for i in range(2 if tier == "quick" else 8):
+        specs.append({"name": f"interleaved-{i}", "kind": "interleaved", "n": 400 if tier == "quick" else 6000})
     return specs
 
 
@@ -271,8 +273,56 @@ def run_large(spec, rec: Recorder):
             rec.violation("large-content-flip-ignored", f"{size} byte content, {layout}: a flip inside ciphertext / tag / wrapped CEK / nonce left the result unchanged {hist}", {"size": size, "layout": layout})
 
 
+def run_interleaved(spec, rec: Recorder):
+    """One cache, many blobs: valid blobs of secret A alternate with altered blobs of secret B of exactly the same length
+    (short-lived buffers, so that a later input often occupies the memory of an earlier one).  An altered blob of B must fail
+    or give B - never the secret of whatever was decrypted before it."""
+    import uuid as _uuid
+
+    import dpapi_ng
+    from vf.props import online
+    from vf.ref import cms
+
+    mon.KDFS.install()
+    rng = common.rng_for(ID, spec)
+    rkid = _uuid.UUID(int=rng.getrandbits(128))
+    rk = online.root_key(rng, rng.choice(common.HASHES), "DH")
+    cache = dpapi_ng.KeyCache()
+    online.load_into_cache(cache, rkid, rk)
+    sid = online.gen_sid(rng, n=3)
+    ptlen = rng.choice([16, 33, 200])
+    hist: t.Dict[str, int] = {}
+    for i in range(spec["n"]):
+        layout = "envelope" if i % 4 < 2 else "trailing"
+        pos = (361, rng.randrange(32), rng.randrange(32))
+        pt_a, pt_b = rng.randbytes(ptlen), rng.randbytes(ptlen)
+        a = online.ref_blob(rng, rkid, rk, sid, pos, "nonce", pt_a, in_envelope=(layout == "envelope"), domain="mut.test")
+        b = online.ref_blob(rng, rkid, rk, sid, pos, "nonce", pt_b, in_envelope=(layout == "envelope"), domain="mut.test")
+        base_a = mutate.Base(f"interleaved-A-{i}", a, pt_a, rkid, rk, "nonce", layout)
+        base_b = mutate.Base(f"interleaved-B-{i}", b, pt_b, rkid, rk, "nonce", layout)
+        if execute(rec, base_a, cache, bytes(bytearray(a)), "identity", {"kind": "interleaved", "shard": spec["name"], "round": i}, embed=False) != "same":
+            rec.inconclusive_because("interleaved: a valid blob did not decrypt")
+            return
+        # altered B, same length as A, in a freshly allocated buffer
+        ct = cms.parse(b)["enc_content"]
+        off = b.rfind(ct)
+        where = rng.choice(["ciphertext", "tag", "cek", "anywhere"])
+        bit = {"ciphertext": (off + rng.randrange(max(1, len(ct) - 16))) * 8, "tag": (off + len(ct) - 1 - rng.randrange(16)) * 8, "cek": b.find(cms.parse(b)["enc_cek"]) * 8 + rng.randrange(320), "anywhere": rng.randrange(len(b) * 8)}[where] + rng.randrange(8) * (where != "cek")
+        m = mutate.flip(b, min(bit, len(b) * 8 - 1))
+        del a
+        out = execute(rec, base_b, cache, m, f"flip in {where} after another blob of the same length was decrypted on the same cache", {"kind": "interleaved", "shard": spec["name"], "round": i, "bit": bit}, embed=False)
+        hist[out] = hist.get(out, 0) + 1
+        rec.count("mutations_executed")
+        rec.count("interleaved_rounds")
+        rec.case(("interleaved", spec["name"], i), nontrivial=True)
+    rec.sample({"kind": "interleaved on one cache", "rounds": spec["n"], "plaintext_len": ptlen, "outcomes": hist})
+
+
 def run_shard(spec, rec: Recorder):
     if not common.calibrate(rec, "der", "gkdi", "cms", "crypto"):
+        return
+    if spec["kind"] == "interleaved":
+        run_interleaved(spec, rec)
         return
     {"flips": run_flips, "structural": run_structural, "deterministic": run_deterministic, "large": run_large}[spec["kind"]](spec, rec)
 
